@@ -149,6 +149,8 @@ type Layout struct {
 	// InlineImages: inline images (BI … ID data EI, with and without the PDF 2.0
 	// /L length entry, data full of token look-alikes) between the text objects.
 	FontNameRot, FontsDirect, InlineImages bool
+	// TmScale: "/F 1 Tf  s 0 0 s x y Tm" instead of "/F s Tf  1 0 0 1 x y Tm"
+	TmScale bool
 	// Mutate: a semantic fault applied while writing revision MutateRev (C02 only)
 	Mutate    *Mutation
 	MutateRev int
@@ -291,6 +293,7 @@ func (b *builder) filtersFor(key string, dataLen int) []FilterStage {
 type contentStyle struct {
 	comments, quotes, tjKern bool
 	inlineImg                bool
+	tmScale                  bool
 	eol                      string
 	codeWidth                func(font int) int // bytes per character code
 }
@@ -343,7 +346,17 @@ func contentTokens(p *PageL, fontName func(int) string, r *rand.Rand, cs content
 		first := true
 		for _, sh := range ln.Shows {
 			lineStart := first // ' and " return to the start of the line (T*): only the first show of a line may use them
-			t = append(t, "/"+fontName(sh.Font), fix(num(ln.Size)), "Tf")
+			if cs.tmScale {
+				// font size 1, the size carried by the text matrix (as several producers write it)
+				t = append(t, "/"+fontName(sh.Font), "1", "Tf")
+				if first {
+					t = append(t, fix(num(ln.Size)), "0", "0", fix(num(ln.Size)), fix(num(ln.X)), fix(num(ln.Y)), "Tm")
+					px, py = ln.X, ln.Y
+					first = false
+				}
+			} else {
+				t = append(t, "/"+fontName(sh.Font), fix(num(ln.Size)), "Tf")
+			}
 			if first {
 				if r.Intn(2) == 0 {
 					t = append(t, "1", "0", "0", "1", fix(num(ln.X)), fix(num(ln.Y)), "Tm")
@@ -647,7 +660,7 @@ func (b *builder) materialize(d *Doc) (map[string]any, []string) {
 		}
 		return 1
 	}
-	style := contentStyle{comments: b.lay.Comments, quotes: b.lay.Quotes, tjKern: b.lay.TJKern, inlineImg: b.lay.InlineImages, eol: b.lay.EOL, codeWidth: codeWidth}
+	style := contentStyle{comments: b.lay.Comments, quotes: b.lay.Quotes, tjKern: b.lay.TJKern, inlineImg: b.lay.InlineImages, tmScale: b.lay.TmScale, eol: b.lay.EOL, codeWidth: codeWidth}
 	if b.lay.InlineImages {
 		b.feat["content.inline-image"] = true
 	}
